@@ -1,7 +1,8 @@
 (* C15 -- All observation channels of a simulation agree; illegal inputs are refused.
    Only statements + `exact`; proofs in Sim/TraceProofs.v and IO/VcdProofs.v. *)
-From PyRTL Require Import Base.PyZ Sim.TraceBase Sim.Trace Gen.InputGuards Sim.TraceProofs.
-From Coq Require Import Permutation.
+From PyRTL Require Import Base.PyZ Sim.TraceBase Sim.Trace Gen.InputGuards Sim.TraceProofs IO.Vcd IO.VcdProofs.
+From Coq Require Import Permutation Sorted String.
+Import List ListNotations.
 
 (* ---- input validation: the guards below are regenerated from the simulators'
    source on every run (py/genfrag_C15.py -> Gen/InputGuards.v) *)
@@ -33,8 +34,335 @@ Proof. exact (compiled_guard_refuted_if eq_refl). Qed.
 Print Assumptions C15_compiled_guard_refuted.
 *)
 
-(* holds in both states of the source: values that are too large are always refused *)
-Theorem C15_input_guard_compiled_upper_partial : forall v w, 1 <= w -> 2 ^ w <= v ->
-  guard_compiled v w = true.
-Proof. exact compiled_guard_upper. Qed.
-Print Assumptions C15_input_guard_compiled_upper_partial.
+(* ---- inspect / trace / length.  The design is abstract: `stepf` is one clock cycle.
+   `sim_step` = Simulation.step / FastSimulation.step / CompiledSimulation.step:
+   validate, simulate, append to the trace, then check_rtl_assertions. *)
+Section Channels.
+  Variable State : Type.
+  Variable stepf : State -> inputs -> State * (name -> Z).
+  Variable input_widths : list (name * Z).
+  Variable guard : Z -> Z -> bool.
+  Variable asserts : list name.
+  Notation sim_step := (sim_step State stepf input_widths guard asserts).
+  Notation run := (run State stepf input_widths guard asserts).
+  Notation step_multiple := (step_multiple State stepf input_widths guard asserts).
+  Notation accepted ins := (bad_inputs input_widths guard ins || missing_inputs input_widths ins = false).
+
+  (* after every step that was not refused, for every traced wire: the last trace entry is
+     inspect(w) (value map of Simulation, context of FastSimulation; for CompiledSimulation
+     inspect IS `trace_last`, and the entry is the value the cycle computed) *)
+  Theorem C15_inspect_is_last_after_step : forall s ins s' o w,
+    sim_step s ins = (s', o) -> o <> Rejected -> In w (trace_names (str s)) ->
+    trace_last (str s') w = Some (inspect State s' w).
+  Proof. exact (step_inspect_last State stepf input_widths guard asserts). Qed.
+
+  (* after any sequence of step calls that simulated at least one cycle (k calls returned,
+     the next one possibly raised an rtl_assert exception or was refused) *)
+  Theorem C15_inspect_is_last : forall inss s s' k o w,
+    run s inss = (s', k, o) -> (0 < cycles k o)%nat -> In w (trace_names (str s)) ->
+    trace_last (str s') w = Some (inspect State s' w).
+  Proof. exact (run_inspect_last State stepf input_widths guard asserts). Qed.
+
+  (* a refused step changes nothing: trace not advanced, inspect unchanged *)
+  Theorem C15_rejected_step_changes_nothing : forall s ins s',
+    sim_step s ins = (s', Rejected) -> s' = s.
+  Proof. exact (step_rejected State stepf input_widths guard asserts). Qed.
+
+  (* a step is refused iff some provided value fails the guard / names no Input / an Input is missing *)
+  Theorem C15_step_rejected_iff : forall s ins,
+    snd (sim_step s ins) = Rejected <-> ~ accepted ins.
+  Proof. exact (step_rejected_iff State stepf input_widths guard asserts). Qed.
+
+  (* every traced list has exactly as many entries as cycles were simulated *)
+  Theorem C15_trace_length : forall inss s s' k o n,
+    run s inss = (s', k, o) -> all_len (str s) n -> all_len (str s') (n + cycles k o).
+  Proof. exact (run_length State stepf input_widths guard asserts). Qed.
+
+  Theorem C15_trace_length_all_done : forall inss ws st v0 s' k,
+    run (mkSim st v0 (new_trace ws)) inss = (s', k, Done) ->
+    k = length inss /\ all_len (str s') (length inss).
+  Proof. exact (run_length_all_done State stepf input_widths guard asserts). Qed.
+
+  (* ---- rtl_assert: with legal inputs, stepping raises the exception of assertion a after
+     exactly t calls returned, iff cycle t is the first in which some assertion wire is 0
+     (a being the first registered assertion that is 0 in that cycle); otherwise every call returns *)
+  Theorem C15_rtl_assert_first_failure : forall inss s s' k o,
+    Forall (fun ins => accepted ins) inss -> run s inss = (s', k, o) ->
+    match first_assert_failure asserts (pure_vals State stepf (sst s) inss) with
+    | Some (t, a) => k = t /\ o = AssertFailed a
+    | None => k = length inss /\ o = Done
+    end.
+  Proof. exact (run_first_assert State stepf input_widths guard asserts). Qed.
+
+  Theorem C15_first_assert_failure_is_first_zero : forall vms t a,
+    first_assert_failure asserts vms = Some (t, a) <->
+    (exists vm, nth_error vms t = Some vm /\ failing_assert asserts vm = Some a) /\
+    (forall t' vm', (t' < t)%nat -> nth_error vms t' = Some vm' -> failing_assert asserts vm' = None).
+  Proof. exact (first_assert_failure_spec asserts). Qed.
+
+  Theorem C15_failing_assert_none : forall vm,
+    failing_assert asserts vm = None <-> forall a, In a asserts -> vm a <> 0.
+  Proof. exact (failing_assert_none asserts). Qed.
+
+  Theorem C15_failing_assert_some : forall vm a,
+    failing_assert asserts vm = Some a -> In a asserts /\ vm a = 0.
+  Proof. exact (failing_assert_some asserts). Qed.
+
+  (* ---- step_multiple (one model for the three textually identical copies, gate T14) *)
+  (* the prologue: number of steps and the length requirements *)
+  Theorem C15_step_multiple_nsteps : forall provided (expected : list (name * list (option Z))) nsteps n,
+    sm_nsteps provided expected nsteps = inr n ->
+    n = nsteps_of provided nsteps /\ 1 <= n /\
+    Forall (fun p => n <= len (snd p)) provided /\ Forall (fun p => n <= len (snd p)) expected.
+  Proof. exact (@sm_nsteps_ok (option Z)). Qed.
+
+  (* = calling step once per cycle (same final object), and the failed list is the list of
+     mismatches of those single steps, in step order *)
+  Theorem C15_step_multiple_equiv : forall provided expected nsteps s n s',
+    sm_nsteps provided expected nsteps = inr n ->
+    run s (map (inputs_at provided) (seq 0 (Z.to_nat n))) = (s', Z.to_nat n, Done) ->
+    step_multiple provided expected nsteps false s =
+      SmFinished s' (mismatches State stepf input_widths guard asserts provided expected s (seq 0 (Z.to_nat n))).
+  Proof. exact (step_multiple_all State stepf input_widths guard asserts). Qed.
+
+  (* exactly the mismatching expected outputs: (i, w, e, a) is reported for the object s_i
+     reached after step i iff expected[w][i] = e is not '?', a = inspect(w) and e <> a *)
+  Theorem C15_step_multiple_exact_mismatches : forall expected s_i i f,
+    In f (check_expected State expected s_i i) <->
+    exists w l e, In (w, l) expected /\ nth i l None = Some e /\ e <> inspect State s_i w
+                  /\ f = (i, w, e, inspect State s_i w).
+  Proof. exact (check_in State). Qed.
+
+  (* if a single step would raise (refused input, rtl_assert), step_multiple raises at the same
+     step with the same object, and writes nothing *)
+  Theorem C15_step_multiple_raises : forall provided expected nsteps s n s' k o,
+    sm_nsteps provided expected nsteps = inr n ->
+    run s (map (inputs_at provided) (seq 0 (Z.to_nat n))) = (s', k, o) -> o <> Done ->
+    step_multiple provided expected nsteps false s = SmRaised s' k o.
+  Proof. exact (step_multiple_raises State stepf input_widths guard asserts). Qed.
+
+  (* stop_after_first_error: stops after the first step that has a mismatch and reports that step *)
+  Theorem C15_step_multiple_stop : forall provided expected nsteps s n s',
+    sm_nsteps provided expected nsteps = inr n ->
+    run s (map (inputs_at provided) (seq 0 (Z.to_nat n))) = (s', Z.to_nat n, Done) ->
+    step_multiple provided expected nsteps true s =
+      let idx := seq 0 (Z.to_nat n) in
+      let r := stop_result State expected s
+                 (combine idx (states State stepf input_widths guard asserts s (map (inputs_at provided) idx))) in
+      SmFinished (fst r) (snd r).
+  Proof. exact (step_multiple_stop State stepf input_widths guard asserts). Qed.
+
+  Theorem C15_step_multiple_prologue_error : forall provided expected nsteps stop s e,
+    sm_nsteps provided expected nsteps = inl e ->
+    step_multiple provided expected nsteps stop s = SmError e.
+  Proof. exact (step_multiple_prologue_error State stepf input_widths guard asserts). Qed.
+End Channels.
+Print Assumptions C15_inspect_is_last_after_step.
+Print Assumptions C15_inspect_is_last.
+Print Assumptions C15_rejected_step_changes_nothing.
+Print Assumptions C15_step_rejected_iff.
+Print Assumptions C15_trace_length.
+Print Assumptions C15_trace_length_all_done.
+Print Assumptions C15_rtl_assert_first_failure.
+Print Assumptions C15_first_assert_failure_is_first_zero.
+Print Assumptions C15_failing_assert_none.
+Print Assumptions C15_failing_assert_some.
+Print Assumptions C15_step_multiple_nsteps.
+Print Assumptions C15_step_multiple_equiv.
+Print Assumptions C15_step_multiple_exact_mismatches.
+Print Assumptions C15_step_multiple_raises.
+Print Assumptions C15_step_multiple_stop.
+Print Assumptions C15_step_multiple_prologue_error.
+
+(* the written report lists exactly the failed entries, ordered by (step, natural name key) *)
+Theorem C15_report_is_sorted_permutation : forall failed,
+  Permutation (report failed) failed /\ Sorted (fun f g => failure_leb f g = true) (report failed).
+Proof. exact (fun failed => conj (report_perm failed) (report_sorted failed)). Qed.
+Print Assumptions C15_report_is_sorted_permutation.
+
+(* ---- text channels (IO/Vcd.v): text = list of character codes, `string_of_text` gives the
+   Coq string.  Numerals: '{:b}' '{:o}' '{:d}' '{:x}' are render 2/8/10/16. *)
+Theorem C15_numeral_roundtrip : forall b n, 2 <= b <= 16 -> 0 <= n -> parse b (render b n) = Some n.
+Proof. exact parse_render. Qed.
+Print Assumptions C15_numeral_roundtrip.
+
+(* print_trace(base, compact=False) decodes back to the traced values, for every base 2..16
+   (in particular 2, 8, 10, 16), every set of rows and every number of cycles; names are
+   non-empty and contain no space / newline, values are non-negative *)
+Theorem C15_print_trace_roundtrip : forall base rows, 2 <= base <= 16 -> Forall good_row rows ->
+  decode_trace base false (print_trace base false rows) = Some rows.
+Proof. exact print_trace_roundtrip. Qed.
+Print Assumptions C15_print_trace_roundtrip.
+
+(* compact=True writes one character per value: decodable iff every value is a single digit *)
+Theorem C15_print_trace_compact_roundtrip : forall base rows, 2 <= base <= 16 ->
+  Forall (single_row base) rows ->
+  decode_trace base true (print_trace base true rows) = Some rows.
+Proof. exact print_trace_compact_roundtrip. Qed.
+Print Assumptions C15_print_trace_compact_roundtrip.
+
+(* ... and is not injective otherwise (documented: "omit spaces"): the precondition above is needed *)
+Theorem C15_print_trace_compact_ambiguous :
+  print_trace 10 true [(codes "a", [1; 11])] = print_trace 10 true [(codes "a", [11; 1])].
+Proof. exact print_trace_compact_ambiguous. Qed.
+Print Assumptions C15_print_trace_compact_ambiguous.
+
+(* print_vcd (whole text, with or without the clock): decoding gives back every traced list,
+   provided the identifiers are unique (and none is `clk` when the clock is included), contain no
+   newline, all lists have the same length and values / widths are non-negative *)
+Theorem C15_vcd_roundtrip : forall clock rows,
+  Forall (good_vrow_full (endtime rows)) rows -> NoDup (map vid rows) ->
+  (clock = true -> ~ In (codes "clk") (map vid rows)) ->
+  decode_vcd (map vid rows) (print_vcd clock rows) = map vvals rows.
+Proof. exact vcd_roundtrip. Qed.
+Print Assumptions C15_vcd_roundtrip.
+
+Theorem C15_vcd_body_roundtrip : forall clock rows,
+  Forall (good_vrow (endtime rows)) rows -> NoDup (map vid rows) ->
+  (clock = true -> ~ In (codes "clk") (map vid rows)) ->
+  decode_vcd_body (map vid rows) (vcd_body clock rows) = map vvals rows.
+Proof. exact vcd_body_roundtrip. Qed.
+Print Assumptions C15_vcd_body_roundtrip.
+
+(* the uniqueness hypothesis cannot be dropped: with the identifiers print_vcd actually assigns to
+   wires named `_vcd_tmp_0` and `a.b` (both `_vcd_tmp_0`), decoding by identifier returns the
+   interleaving of the two lists, i.e. neither wire's trace *)
+Definition ex_collide : list vrow :=
+  [mkVrow (codes "_vcd_tmp_0") (codes "_vcd_tmp_0") 4 [3; 5]; mkVrow (codes "a.b") (codes "_vcd_tmp_0") 4 [12; 10]].
+Theorem C15_vcd_needs_unique_identifiers :
+  NoDup (map vname ex_collide) /\
+  decode_vcd (map vid ex_collide) (print_vcd false ex_collide) = [[3; 12; 5; 10]; [3; 12; 5; 10]] /\
+  decode_vcd (map vid ex_collide) (print_vcd false ex_collide) <> map vvals ex_collide.
+Proof.
+  split; [|split; [vm_compute; reflexivity|vm_compute; discriminate]].
+  cbn [map ex_collide vname]. repeat (first [apply NoDup_nil | apply NoDup_cons]); vm_compute; intuition (try discriminate; try lia).
+Qed.
+Print Assumptions C15_vcd_needs_unique_identifiers.
+
+(* the report written by step_multiple decodes back to the sorted failed list *)
+Theorem C15_report_roundtrip : forall stop failed, failed <> [] -> Forall good_failure failed ->
+  decode_report (report_text stop failed) = Some (report failed).
+Proof. exact report_roundtrip. Qed.
+Print Assumptions C15_report_roundtrip.
+
+(* ---- non-vacuity.  A 2-register design observed through every channel:
+   state = cycle counter c; wires: a (input), c, o = a + c, ok = (c <> 2). *)
+Definition nm (s : String.string) : name := codes s.
+Definition ex_stepf (c : Z) (ins : inputs) : Z * (name -> Z) :=
+  let a := match lookup ins (nm "a") with Some v => v | None => 0 end in
+  (c + 1, fun w => if text_eqb w (nm "a") then a
+                   else if text_eqb w (nm "c") then c
+                   else if text_eqb w (nm "o10") then a + c
+                   else if text_eqb w (nm "ok") then (if c =? 2 then 0 else 1)
+                   else 0).
+Definition ex_sim : sim Z := mkSim 0 (fun _ => 0) (new_trace [nm "a"; nm "c"; nm "o10"; nm "ok"]).
+Definition ex_widths := [(nm "a", 4)].
+Definition ex_run (asserts : list name) (vals : list Z) :=
+  run Z ex_stepf ex_widths guard_simulation asserts ex_sim (map (fun v => [(nm "a", v)]) vals).
+
+Example C15_example_guards :
+  map (fun v => (guard_simulation v 4, guard_fast v 4, guard_compiled v 4)) [-1; 0; 15; 16; 2 ^ 64]
+  = [(true, true, true); (false, false, false); (false, false, false); (true, true, true); (true, true, true)].
+Proof. vm_compute. reflexivity. Qed.
+
+(* three accepted steps: every list has three entries, inspect = last entry *)
+Example C15_example_trace :
+  match ex_run [] [3; 7; 15] with
+  | (s, k, o) => k = 3%nat /\ o = Done /\ str s = [(nm "a", [3; 7; 15]); (nm "c", [0; 1; 2]);
+                                                  (nm "o10", [3; 8; 17]); (nm "ok", [1; 1; 0])]
+                 /\ map (inspect Z s) [nm "a"; nm "c"; nm "o10"] = [15; 2; 17]
+                 /\ map (trace_last (str s)) [nm "a"; nm "c"; nm "o10"] = [Some 15; Some 2; Some 17]
+  end.
+Proof. vm_compute. repeat split; reflexivity. Qed.
+
+(* a refused value (16 does not fit 4 bits) in the third call: two cycles traced, nothing else changes *)
+Example C15_example_rejected :
+  match ex_run [] [3; 7; 16; 1] with
+  | (s, k, o) => k = 2%nat /\ o = Rejected /\ trace_len (str s) = 2
+  end.
+Proof. vm_compute. repeat split; reflexivity. Qed.
+
+(* rtl_assert on `ok`: raised by the third call (cycle 2, the first cycle with ok = 0), after tracing it *)
+Example C15_example_assert :
+  match ex_run [nm "ok"] [3; 7; 15; 1] with
+  | (s, k, o) => k = 2%nat /\ o = AssertFailed (nm "ok") /\ trace_len (str s) = 3
+  end
+  /\ first_assert_failure [nm "ok"] (pure_vals Z ex_stepf 0 (map (fun v => [(nm "a", v)]) [3; 7; 15; 1]))
+     = Some (2%nat, nm "ok").
+Proof. vm_compute. repeat split; reflexivity. Qed.
+
+(* step_multiple with wrong entries and '?': the failed list, its report order and text *)
+Example C15_example_step_multiple :
+  match step_multiple Z ex_stepf ex_widths guard_simulation []
+          [(nm "a", [3; 7; 15])]
+          [(nm "o10", [Some 3; None; Some 9]); (nm "c", [Some 1; Some 1; Some 5])] None false ex_sim with
+  | SmFinished s failed =>
+      failed = [(0%nat, nm "c", 1, 0); (2%nat, nm "o10", 9, 17); (2%nat, nm "c", 5, 2)]
+      /\ report failed = [(0%nat, nm "c", 1, 0); (2%nat, nm "c", 5, 2); (2%nat, nm "o10", 9, 17)]
+      /\ trace_len (str s) = 3
+      /\ string_of_text (report_text false failed) =
+"Unexpected output on one or more steps:
+ step       name expected   actual
+    0          c        1        0
+    2          c        5        2
+    2        o10        9       17
+"%string
+  | _ => False
+  end.
+Proof. vm_compute. repeat split; reflexivity. Qed.
+
+Example C15_example_step_multiple_errors :
+  (* nsteps greater than the values supplied; no inputs and no nsteps; an expected list too short *)
+  map (fun r => match r with SmError k => k | _ => 0 end)
+    [ step_multiple Z ex_stepf ex_widths guard_simulation [] [(nm "a", [3; 7])] [] (Some 3) false ex_sim;
+      step_multiple Z ex_stepf ex_widths guard_simulation [] [] [] None false ex_sim;
+      step_multiple Z ex_stepf ex_widths guard_simulation [] [(nm "a", [3; 7])] [(nm "c", [Some 0])] None false ex_sim ]
+  = [2; 1; 5].
+Proof. vm_compute. reflexivity. Qed.
+
+Ltac listy := repeat (first [apply Forall_nil | apply Forall_cons | apply NoDup_nil | apply NoDup_cons]).
+Definition ex_rows : list row := [(nm "a", [3; 255]); (nm "out[3]", [0; 18])].
+Example C15_example_print_trace :
+  string_of_text (print_trace 16 false ex_rows) =
+"   --- Values in base 16 ---
+a       3 ff
+out[3]  0 12
+"%string
+  /\ Forall good_row ex_rows
+  /\ decode_trace 16 false (print_trace 16 false ex_rows) = Some ex_rows.
+Proof.
+  split; [vm_compute; reflexivity|]. split; [|vm_compute; reflexivity].
+  unfold ex_rows. listy; (split; [split; [discriminate|split; vm_compute; intuition lia]|listy; lia]).
+Qed.
+
+Definition ex_vrows : list vrow :=
+  [mkVrow (nm "a") (nm "a") 8 [3; 255]; mkVrow (nm "out[3]") (nm "_vcd_tmp_0") 5 [0; 18]].
+Example C15_example_print_vcd :
+  string_of_text (print_vcd false ex_vrows) =
+"$timescale 1ns $end
+$scope module logic $end
+$var wire 8 a a $end
+$var wire 5 _vcd_tmp_0 _vcd_tmp_0 $end
+$upscope $end
+$enddefinitions $end
+$dumpvars
+b11 a
+b0 _vcd_tmp_0
+$end
+#0
+b11 a
+b0 _vcd_tmp_0
+
+#10
+b11111111 a
+b10010 _vcd_tmp_0
+
+#20
+"%string
+  /\ decode_vcd [nm "a"; nm "_vcd_tmp_0"] (print_vcd true ex_vrows) = [[3; 255]; [0; 18]]
+  /\ Forall (good_vrow_full (endtime ex_vrows)) ex_vrows /\ NoDup (map vid ex_vrows).
+Proof.
+  split; [vm_compute; reflexivity|]. split; [vm_compute; reflexivity|]. split.
+  - unfold ex_vrows. listy; (split; [split; [reflexivity|split; [listy; lia|vm_compute; intuition lia]]|cbn; lia]).
+  - cbn [map ex_vrows vid]. listy; vm_compute; intuition (try discriminate; try lia).
+Qed.
